@@ -13,9 +13,9 @@ import (
 // classes (Δ of tracked counters, constant return values, path facts).
 
 type effSpec struct {
-	regField *types.Var         // slice field whose length is the "registered" count
-	advCalls map[string]int     // callee full name -> Δ advertised
-	inline   map[string]bool    // callee full names summarised recursively
+	regField *types.Var      // slice field whose length is the "registered" count
+	advCalls map[string]int  // callee full name -> Δ advertised
+	inline   map[string]bool // callee full names summarised recursively
 	maxPaths int
 }
 
@@ -332,7 +332,16 @@ func (e *effEngine) callerExcludesMiss(facts []Fact, call *ssa.Call) bool {
 				return w
 			}
 			n := callName(i)
-			return e.spec.inline[n] && i != ssa.Instruction(call)
+			if e.spec.inline[n] && i != ssa.Instruction(call) {
+				return true
+			}
+			// the membership fact is only as good as the critical section it was established in
+			if op, ok := lockOpOf(i); ok && !op.acquire {
+				if _, isDefer := i.(*ssa.Defer); !isDefer {
+					return true
+				}
+			}
+			return false
 		}) {
 			return true
 		}
